@@ -593,6 +593,13 @@ class Inliner:
         variant) on a branch and the caller immediately branches on the returned value (or applies `?` to it), that branch
         of the helper continues directly at the caller's corresponding target. Without this the caller's decision would
         hang on a materialised value and no edge of the original condition would dominate the guarded code any more."""
+        # an empty pass-through block (the `goto` a spliced helper's return became) is not the continuation yet
+        for _ in range(6):
+            cb = caller['blocks'][cont]
+            if cb['term']['k'] == 'goto' and not [st for st in cb['stmts'] if st['k'] == 'assign'] and isinstance(cb['term'].get('target'), int):
+                cont = cb['term']['target']
+            else:
+                break
         cb = caller['blocks'][cont]
         tt = cb['term']
         if any(st['k'] == 'assign' and st['lhs']['l'] == dest for st in cb['stmts']):
@@ -608,6 +615,27 @@ class Inliner:
             mode = 'try'
             targets = dict((v, b) for v, b in st_['targets'])
             otherwise = st_['otherwise']
+        elif tt['k'] == 'call' and re.search(r'^std::option::Option::<.*>::(unwrap|expect)$', (_callee(tt)[0] or '')) and tt['args'] and _op_local(tt['args'][0]) == dest:
+            # `helper(..).unwrap()`: the branches of the helper that produce None end in the panic, they do not continue
+            for ri, chain, last, vals in (sites if sites is not None else self._return_sites(caller, boff, n, ret_slot, dest, cont)):
+                if len(vals) != 1:
+                    continue
+                v = next(iter(vals))
+                if not (isinstance(v, tuple) and v[0] == 'var' and v[1] == 'std::option::Option' and v[2] == 0):
+                    continue
+                if last is None:
+                    caller['blocks'][ri]['term'] = {'k': 'unreachable', 'threaded': True, 'why': 'unwrap() of None panics'}
+                else:
+                    caller['blocks'].append({'cleanup': False, 'stmts': [], 'term': {'k': 'unreachable', 'threaded': True, 'why': 'unwrap() of None panics'}})
+                    nxt = len(caller['blocks']) - 1
+                    first_old = chain[0] if chain else ri
+                    lt = caller['blocks'][last]['term']
+                    for k_ in ('target', 'otherwise', 'resume'):
+                        if lt.get(k_) == first_old:
+                            lt[k_] = nxt
+                    if 'targets' in lt:
+                        lt['targets'] = [[v_, (nxt if b_ == first_old else b_)] for v_, b_ in lt['targets']]
+            return
         elif tt['k'] == 'switch':
             dl = _op_local(tt['discr'])
             if dl is None:
